@@ -36,12 +36,16 @@ PLAN = {
         note="alloc_frame is proved per storage size N (configurations enumerated), not for symbolic N",
     ),
     "C04": dict(
-        verus=[], kani=["frame_build", "slots"], level="proof",
-        claim="frames built by the real CreatedFrame/FrameBox/SendableFrame code equal an independent encoder (Kani): Ethernet header, EtherCAT length header, "
+        verus=["created_frame"], kani=["frame_build", "slots"], level="proof",
+        claim="CreatedFrame::push_pdu / push_pdu_slice_rest / can_push_pdu_payload / is_empty and generate::write_packed extracted WHOLE and verbatim (Verus, any frame "
+              "size <= 2047, any number of datagrams, any payload): Ok iff old used + max(len, override) + 12 <= capacity, the used length advances by exactly that, a refused push "
+              "returns TooLong and changes nothing, fill-the-rest is cut to min(len, free-12) and says so and never errs, bytes beyond the new datagram are untouched, the "
+              "previous-header position is always a datagram start inside the used part (no failed unwrap, no out-of-bounds slice, no overflow). Byte content: frames built by the real CreatedFrame/FrameBox/SendableFrame code equal an independent encoder (Kani): Ethernet header, EtherCAT length header, "
               "each datagram's command code, address, length, payload, zero padding, zero counter/IRQ, 'more follows' on all but the last; refusal (TooLong) "
               "changes nothing; fill-the-rest pushes are cut to what fits and say so. Command::code/pack and the PduHeader/PduFlags/frame header wire layouts are "
               "complete (loop-free, full domain); the frame-building harnesses are bounded stand-ins (DATA=64, <=2 datagrams + fill)",
-        note="bounded in frame size and datagram count (stated under bounded_not_counted_as_proved); unbounded Verus contract for push_pdu not built",
+        note="the ACCOUNTING contract is unbounded (Verus, FrameBox seen as {area, payload_len} with pdu_buf_mut/add_pdu/pdu_payload_len as assumed accessors - their real "
+             "pointer code is in the Kani groups); the BYTE CONTENT harnesses are bounded in frame size and datagram count (stated under bounded_not_counted_as_proved)",
     ),
     "C05": dict(
         verus=[], kani=["rx", "storage", "slots"], level="proof",
@@ -59,7 +63,7 @@ PLAN = {
              "for embassy_time_driver); known findings C06-U1..U5",
     ),
     "C07": dict(
-        verus=["group_cycle"], kani=["wkc", "frame_build"], level="proof",
+        verus=["group_cycle", "created_frame"], kani=["wkc", "frame_build"], level="proof",
         claim="SubDeviceGroup::tx_rx, tx_rx_sync_system_time and tx_rx_dc extracted WHOLE and verbatim (Verus, any image length <= MAX_PDI, any input/output split, any number of SubDevices, any "
               "frame size from one state check up to 2047): each frame's process-data datagram is an LRW at start + (bytes sent so far) carrying exactly the next "
               "n = min(bytes left, free-12) > 0 image bytes (chunks tile the window contiguously, no gap, no overlap); the output part of the image is untouched; "
@@ -68,7 +72,7 @@ PLAN = {
               "datagram is answered]); the DC variants start exactly the FIRST frame with one FRMW(reference clock, 0x0910, 8 bytes) and no later frame carries one. Leaves: "
               "push_state_checks (k = min(devices left, floor(free/14), 129), group order), process_received_pdi_chunk (full frame condition).",
         note="network = echo-shape assumption (a reply has the datagram boundaries of the request, contents arbitrary); CreatedFrame seen through its push contract "
-             "(decided by C04, bounded) and ReceivedPduIter::next through its contract (first item: Kani wkc::rx_pdu_iter_first; later items ASSUMED - CBMC does "
+             "(accounting part decided unboundedly by the Verus unit created_frame, which is run for C07 as well; byte content by C04's Kani group, bounded) and ReceivedPduIter::next through its contract (first item: Kani wkc::rx_pdu_iter_first; later items ASSUMED - CBMC does "
              "not finish two calls); 'states in group order' is proved as a count, not per entry; 'reported system time is the FRMW answer' is not stated",
     ),
     "C18": dict(
